@@ -297,3 +297,24 @@ package bigslice
 //@   modifies state.Scanner, state.Closer, lines[:], Scanner.spos, WCloser.zcloses, WCloser.zcloseErr
 //@   loop 1 invariant state.Scanner != nil && implies(first && range_idx == 0, state.Scanner.spos == shard + 1) && implies(first && range_idx >= 1, state.Scanner.spos == shard + 1 + (range_idx - 1) * nshard) && implies(!first, state.Scanner == old(state.Scanner) && state.Scanner.spos == old(state.Scanner.spos) + range_idx * nshard)
 //@   loop 1 invariant implies(first, forall(j, 0, range_idx, lines[j] == lineText(state.Scanner, shard + j * nshard))) && implies(!first, forall(j, 0, range_idx, lines[j] == lineText(state.Scanner, old(state.Scanner.spos) - 1 + (j + 1) * nshard)))
+
+// ---- C01: Flatmap's reader never reports end-of-stream while rows remain buffered ----
+
+// The reader buffers input rows (in[begIn:endIn]) and output rows that did not fit the caller's frame (out). It may
+// report end-of-stream only once the upstream reader has, and both buffers are drained; a failed upstream read is
+// returned as it is. (Frame plumbing is abstracted: any row counts, may panic.)
+//@ func bigslice.(*flatmapReader).Read (ctx, out) (n, err)
+//@   requires f != nil && f.op != nil && f.reader != nil
+//@   may_panic
+//@   flag abstract_calls frame.Copy, frame.Frame.Slice, frame.Make, frame.Frame.Ensure, frame.Frame.Index
+//@   ensures  eof-only-when-drained: implies(err == sliceio.EOF, f.eof && f.begIn == f.endIn)
+//@   ensures  eof-flag-truthful: implies(f.reader.nreads > old(f.reader.nreads), f.eof == (f.reader.lastErr == sliceio.EOF)) && implies(f.reader.nreads == old(f.reader.nreads), f.eof == old(f.eof))
+//@   ensures  upstream-error-returned: implies(f.reader.nreads > old(f.reader.nreads) && f.reader.lastErr != nil && f.reader.lastErr != sliceio.EOF, err == f.reader.lastErr && n == 0)
+//@   ensures  otherwise-no-error: implies(err != nil && err != sliceio.EOF, err == errTypeError || (f.reader.nreads > old(f.reader.nreads) && err == f.reader.lastErr))
+//@   modifies f.in, f.out, f.begIn, f.endIn, f.eof, ColMem, colClock, userCalls, lastCallRvs, SReader.nreads, SReader.lastN, SReader.lastErr, rowsSupplied, sawRowsWithEOF
+//@   loop 1 invariant f.reader.nreads >= old(f.reader.nreads) && implies(f.reader.nreads > old(f.reader.nreads), f.eof == (f.reader.lastErr == sliceio.EOF) && (f.reader.lastErr == nil || f.reader.lastErr == sliceio.EOF)) && implies(f.reader.nreads == old(f.reader.nreads), f.eof == old(f.eof)) && f.reader == old(f.reader)
+//@   loop 2 invariant a: f.reader == old(f.reader)
+//@   loop 2 invariant b: implies(f.reader.nreads == old(f.reader.nreads), f.eof == old(f.eof))
+//@   loop 2 invariant c: implies(f.reader.nreads > old(f.reader.nreads), f.eof == (f.reader.lastErr == sliceio.EOF))
+//@   loop 2 invariant d: implies(f.reader.nreads > old(f.reader.nreads), f.reader.lastErr == nil || f.reader.lastErr == sliceio.EOF)
+//@   loop 2 invariant e: f.reader.nreads >= old(f.reader.nreads)
